@@ -303,6 +303,10 @@ impl<'a> BddPtr<'a> {
     pub fn clear_scratch(&self) {
         match &self {
             Compl(x) | Reg(x) => {
+                #[cfg(rsdd_verif)]
+                if x.data.borrow().is_none() {
+                    crate::verif::probe(crate::verif::Probe::ScratchClearShortCircuit);
+                }
                 if x.data.borrow().is_some() {
                     *x.data.borrow_mut() = None;
                     // x.data.take();
